@@ -884,6 +884,8 @@ class CallMixin:
             return SV('ref', self.sym(hint, INT))
         if spec == 'stubfn':
             return SV('func', FuncVal(builtin='stubfn', name=hint))
+        if spec == 'stubfn1':
+            return SV('func', FuncVal(builtin='stubfn1', name=hint))
         if spec.startswith('oneof['):
             parts = split_top(spec[6:-1])
             return self.fresh_of(parts[self.st.oracle.choose(len(parts))], hint)
